@@ -224,11 +224,22 @@ Fixpoint replies_match (ms : list xmsg) (os : list op) : bool :=
   | _, _ => false
   end.
 
+Definition is_some {A} (o : option A) : bool := match o with Some _ => true | None => false end.
+
+(** connection x was disconnected by an operation issued after stamp b *)
+Definition disc_after (h : history) (x : nat) (b : Z) : bool :=
+  existsb (fun k => match h_o k with ODisc => b <? h_b k | _ => false end) (ops_of h x).
+
+(** An operation that was still in flight when the client disconnected may
+    stay without reply (the session's context is cancelled, the reply is given
+    up); every other REQ / EVENT / COUNT is answered, and the replies received
+    are those of the answered operations, in order. *)
 Definition replies_ok (h : history) : bool :=
   forallb (fun x =>
     let os := filter (fun o => wants_reply (h_o o)) (ops_of h x) in
-    forallb (fun o => match h_d o with Some _ => true | None => false end) os &&
-    replies_match (filter (fun m => negb (is_xevent m)) (List.map fst (outs_of h x))) (List.map h_o os))
+    forallb (fun o => is_some (h_d o) || disc_after h x (h_b o)) os &&
+    replies_match (filter (fun m => negb (is_xevent m)) (List.map fst (outs_of h x)))
+                  (List.map h_o (filter (fun o => is_some (h_d o)) os)))
   (seq 0 (length (hi_outs h))).
 
 (** the final flush reached every connection that is still open *)
